@@ -224,6 +224,11 @@ def _menu():
         "d_cnll": (("dist", "dist"), lambda d, e, k, x, t: compute_clipped_negative_log_likelihood(d, e, {"epsilon": 1e-6})),
         "d_jsd": (("dist", "dist"), lambda d, e, k, x, t: compute_jensen_shannon_divergence(d, e, {"epsilon": 1e-6})),
         "d_distance": (("dist", "dist"), lambda d, e, k, x, t: evaluate_distribution_distance(d, e, compute_mmd, distance_measure_parameters={"sigma": 2.0}) if d.get_number_of_subsystems() == e.get_number_of_subsystems() else None),
+        # the parameter dictionary (and the containers inside it) handed to a distance function is an argument like any other
+        "d_mmd_params": (("dist", "dist", "params"), lambda d, e, p, k, x, t: compute_mmd(d, e, p) if (d.get_number_of_subsystems() == e.get_number_of_subsystems() and "sigma" in p) else None),
+        "d_cnll_params": (("dist", "dist", "params"), lambda d, e, p, k, x, t: compute_clipped_negative_log_likelihood(d, e, p) if "epsilon" in p else None),
+        "d_jsd_params": (("dist", "dist", "params"), lambda d, e, p, k, x, t: compute_jensen_shannon_divergence(d, e, p) if "epsilon" in p else None),
+        "d_distance_params": (("dist", "dist", "params"), lambda d, e, p, k, x, t: evaluate_distribution_distance(d, e, compute_mmd if "sigma" in p else compute_clipped_negative_log_likelihood, distance_measure_parameters=p) if d.get_number_of_subsystems() == e.get_number_of_subsystems() else None),
         "d_save": (("dist",), save_then_read(save_measurement_outcome_distribution)),
         "d_new": (("ddict",), lambda dd, k, x, t: __import__("orquestra.quantum.distributions", fromlist=["x"]).MeasurementOutcomeDistribution(dd, bool(k % 2))),
         "d_repr": (("dist",), lambda d, k, x, t: repr(d)),
@@ -240,7 +245,7 @@ def _menu():
 
 
 KIND_MEMBERS = {"pauli": ("term", "sum"), "circ": ("circ",), "term": ("term",), "sum": ("sum",), "meas": ("meas",),
-                "dist": ("dist",), "wf": ("wf",), "vec": ("vec",), "bits": ("bits",), "qlist": ("qlist",), "ddict": ("ddict",)}
+                "dist": ("dist",), "wf": ("wf",), "vec": ("vec",), "bits": ("bits",), "qlist": ("qlist",), "ddict": ("ddict",), "params": ("params",)}
 OP_NAMES = None
 
 
@@ -327,6 +332,10 @@ def machine(on_end, expired):
                 self._add("vec", np.asarray(v[::-1], dtype=np.complex128).reshape(8).copy(order="F"))
                 self._add("qlist", [2, 0])
                 self._add("qlist", [1])
+                self._add("params", {"sigma": np.array([1.0, 0.5, 2.0])})
+                self._add("params", {"sigma": [0.7, 3.0], "epsilon": 1e-6})
+                self._add("params", {"sigma": 1.5, "epsilon": 1e-3})
+                self._add("params", {"epsilon": 1e-9, "sigma": np.array([2, 4])})
             self.step("init", {"circs": circs, "terms": terms, "sums": sums, "zterms": zterms, "bits": bits, "dists": dists, "seed": seed}, go)
 
         @rule(name=st.sampled_from(sorted(MENU)), i=st.integers(0, 50), j=st.integers(0, 50), k=st.integers(0, 20),
@@ -334,11 +343,11 @@ def machine(on_end, expired):
         def op(self, name, i, j, k, x, keep):
             def go():
                 kinds, fn = MENU[name]
-                idx = [self._pick(kd, n) for kd, n in zip(kinds, (i, j))]
+                idx = [self._pick(kd, n) for kd, n in zip(kinds, (i, j, i + j + k))]
                 if any(ix is None for ix in idx):
                     return
                 args = [self.pool[ix][1] for ix in idx]
-                results = []
+                results, seen = [], []
                 for rep in range(2):
                     try:
                         with warnings.catch_warnings():
@@ -348,9 +357,13 @@ def machine(on_end, expired):
                         # this argument combination is refused: the arguments must still be intact (checked by inv)
                         self.info["classes"].add("refused")
                         return
+                    # observe the result and the pool right after each call: a result that shares parts with an argument
+                    # would otherwise be read only after the second call has edited it once more
+                    seen.append(copy.deepcopy(obs(results[-1])))
+                    self.inv()
                 if results[0] is None:
                     return
-                o1, o2 = obs(results[0]), obs(results[1])
+                o1, o2 = seen
                 require(same(o1, o2), lambda: f"{name}: two calls on the same arguments gave different results: {str(o1)[:200]} vs {str(o2)[:200]}")
                 for ix in idx:
                     self.uses[ix].add(name)
